@@ -377,8 +377,10 @@ def spawn_join(fx, crates=("libxcp", "xcp")):
         pending = [(bi, t) for bi, t in q.calls_to(f, SPAWN) if (f.path, t["span"]["file"], t["span"]["line"]) not in covered]
         if pending:
             _spawn_join_in(fx, f, obs, covered)
-    nsp = len(covered)
-    if nsp < (3 if "xcp" in crates else 2):     # shared spawn helpers can reduce the source sites to two
+    # (a shared spawn helper reduces the *source* sites to one: what is counted is the spawns judged, one per
+    # inlined copy in the views of the functions that own the threads)
+    nsp = len([o for o in obs if o.key.endswith("|joined") or "joined" in o.key])
+    if nsp < (3 if "xcp" in crates else 2):
         obs.append(anchor_ob("R-THREAD", "thread::spawn sites (found %d)" % nsp))
     return obs
 
@@ -743,8 +745,18 @@ def main_consumer_table(fx):
                                    "main's StatusUpdate::Error arm", loc=m.loc()))
     rt = m.locals[0]["ty"]
     okr = rt.startswith("core::result::Result<")
+    how = "Err => non-zero exit status"
+    if not okr:
+        # `fn main() -> ExitCode { match run() { Ok(()) => SUCCESS, Err(e) => { report(e); FAILURE } } }` (or
+        # process::exit): the failure signal of the process's entry point is a non-zero exit status; that every
+        # Err reaches one is R-ERR's obligation on the call of the inner function
+        import r_err as _re
+        sig = _re.signal_blocks(m)
+        exits = [v for v in sig.values() if "ExitCode" in v or "process::exit" in v]
+        okr = bool(exits) and (rt in ("std::process::ExitCode", "()", "!"))
+        how = "failure is turned into %s" % (sorted(set(exits)) or "nothing")
     obs.append(Ob("R-TABLE", mkkey("R-TABLE", MAIN, "returns Result", 0), okr, m.loc(), MAIN,
-                  "main returns %s (Err => non-zero exit status)" % rt))
+                  "main returns %s (%s)" % (rt, how)))
     return obs
 
 
